@@ -219,10 +219,12 @@ func (m *crlsetModel) revoked(h string, serial *big.Int) bool {
 func runCRLSet(e *c15env, caseID string) {
 	c, r := e.c, e.r
 	m := &crlsetModel{version: fmt.Sprint(1000 + r.IntN(9000)), sequence: r.IntN(1 << 20)}
+	var b64Raw [][]byte // raw hashes of the blocked entries written in base64
 	for k := r.IntN(5); k > 0; k-- {
 		raw := randBytes(r, 32)
 		if r.IntN(2) == 0 {
 			m.blocked = append(m.blocked, base64.StdEncoding.EncodeToString(raw)) // the form Chromium ships
+			b64Raw = append(b64Raw, raw)
 		} else {
 			m.blocked = append(m.blocked, hex.EncodeToString(raw)) // the form IssuerLists is keyed by
 		}
@@ -339,6 +341,12 @@ func runCRLSet(e *c15env, caseID string) {
 		qs = append(qs, q{"blocked-spki", m.blocked[r.IntN(len(m.blocked))], ub(randBytes(r, 1+r.IntN(12)))})
 	}
 	qs = append(qs, q{"unrelated", hex.EncodeToString(randBytes(r, 32)), ub(randBytes(r, 1+r.IntN(12)))})
+	if len(b64Raw) > 0 {
+		// Other reading of "blocked SPKI" (not asserted): the header carries base64 strings, callers such as
+		// zcrypto's verifier pass the lowercase hex of the parent's SPKI hash. Under the adopted reading the two
+		// strings differ, so the model says "not blocked"; the disagreement with the hash-level reading is counted.
+		qs = append(qs, q{"blocked-spki-base64-entry-queried-by-hex", hex.EncodeToString(b64Raw[r.IntN(len(b64Raw))]), ub(randBytes(r, 1+r.IntN(12)))})
+	}
 	for _, qu := range qs {
 		cert, err := e.cert(e.names[0], e.names[1], qu.serial, 4)
 		if err != nil {
@@ -362,6 +370,9 @@ func runCRLSet(e *c15env, caseID string) {
 			c.Count("soft_crlset_entry_serial_differs", 1)
 		}
 		c.Count("crlset_q_"+qu.kind, 1)
+		if qu.kind == "blocked-spki-base64-entry-queried-by-hex" && got == nil {
+			c.Count("other_reading_blocked_spki_hash_listed_in_base64_not_matched_by_hex_argument", 1)
+		}
 		if want {
 			c.Count("crlset_revoked", 1)
 		} else {
